@@ -66,7 +66,13 @@ def main():
         if rc != 0:
             print(out)
             return 2
-    sh('rsync -a --delete --exclude .git --exclude out /verif/ %s/' % SCRATCH)
+    # the committed state of /verif (never a half-edited working copy), plus the build caches for speed
+    shutil.rmtree(SCRATCH, ignore_errors=True)
+    os.makedirs(SCRATCH)
+    sh('git -C /verif archive HEAD | tar -x -C %s' % SCRATCH)
+    for cache in ('lean/.lake', '.cache'):
+        if os.path.isdir(os.path.join('/verif', cache)):
+            sh('rsync -a /verif/%s/ %s/%s/' % (cache, SCRATCH, cache))
     envx = dict(os.environ, VERIF_SEED='1', VERIF_REPO=REPO)
     res = dict(name=name, target=meta.get('property'), summary=meta.get('summary'), started=time.strftime('%Y-%m-%dT%H:%M:%SZ', time.gmtime()), checks={})
     res['demo_original'] = demo(name, meta)
